@@ -47,7 +47,7 @@ Qed.
 
 
 (* composite lists handed out by readPtr have word-aligned element data sections (tag word) *)
-Definition caligned (p : Ptr) : Prop := p_comp p = true -> DataSize (p_size p) mod 8 = 0.
+Definition caligned (p : Ptr) : Prop := p_comp p = true -> DataSize (p_size p) mod 8 = 0 /\ p_bit p = false.
 
 Lemma readListPtr_caligned strict sid s base val lp : readListPtr strict sid s base val = Ok lp -> caligned lp.
 Proof.
@@ -61,7 +61,7 @@ Proof.
     destruct (strict && (s32 (ptr_offset hdr) <? 0)); [discriminate|].
     destruct (times (totalSize (structSize hdr)) (s32 (ptr_offset hdr))); [|discriminate].
     destruct (negb (regionInBounds s z0 z1)); [discriminate|].
-    intros H. inversion H; subst. intros _. cbn [p_size]. rewrite structSize_data. lia.
+    intros H. inversion H; subst. intros _. cbn [p_size p_bit]. rewrite structSize_data. split; [lia|reflexivity].
   - destruct (listType val =? 1).
     + intros H. inversion H; subst. intros K. discriminate K.
     + destruct (elementSize val); [|discriminate]. intros H. inversion H; subst. intros K. discriminate K.
@@ -81,7 +81,7 @@ Proof.
   destruct (pointerType val =? listPointer).
   { destruct (readListPtr strict dsid dst base val) as [lp| |] eqn:EL; try discriminate.
     unfold canRead. destruct (rl >=? list_readSize lp); [|discriminate].
-    intros H. inversion H; subst. pose proof (readListPtr_caligned _ _ _ _ _ _ EL) as C. intros K. cbn [p_comp p_size] in *. apply C. exact K. }
+    intros H. inversion H; subst. pose proof (readListPtr_caligned _ _ _ _ _ _ EL) as C. intros K. cbn [p_comp p_size p_bit] in *. apply C. exact K. }
   destruct (pointerType val =? otherPointer); [|discriminate].
   destruct (negb (otherPointerType val =? 0)); [discriminate|].
   intros H. inversion H; subst. intros K. discriminate K.
